@@ -41,7 +41,8 @@ class BasePickerModel(ABC):
             depth = (depth, depth, depth)
         if _extra_depth := kwargs.pop("_extra_depth", 0):
             depth = tuple(d + _extra_depth for d in depth)
-        _depth = [int(min(s, d)) for s, d in zip(image.shape, depth)]
+        # NOTE: must be a tuple. dask reads a list as "one depth for each input array".
+        _depth = tuple(int(min(s, d)) for s, d in zip(image.shape, depth))
         task: da.Array = image.map_overlap(
             self._pick_in_chunk_wrapped,
             **params,
@@ -56,7 +57,7 @@ class BasePickerModel(ABC):
         )
         boxes: Sequence[MoleculesBox] = task.compute().ravel()
         mole = Molecules.concat([box.to_molecules() for box in boxes])
-        mole._pos = (mole._pos - depth) * scale
+        mole._pos = (mole._pos - np.asarray(_depth, dtype=np.asarray(depth).dtype)) * scale
         return mole
 
     def _pick_in_chunk_wrapped(
